@@ -977,13 +977,11 @@ def TItem.toItem (sp : Bool) : TItem → KV.Def.Item
   | .via v o => .via (String.ofList v) (if sp then none else some (String.ofList (o.getD ['N'])))
   | .arr v d => .arr (String.ofList v) (natOf d.nx) (natOf d.ny) (intOf d.dx) (intOf d.dy)
 
-/-- the `DefWire` record handed to the routing model.  `DefNet.wires` evaluates `int(dw.width)` on the width token of a
-special-net wire (a lark `NUMBER`: digits, or a decimal / exponent form such as `1.5`); `int()` raises `ValueError` on
-everything but plain digits (`intOK`), so the hand-over is `none` there — it is NOT totalised to a number. -/
-def TWire.toWire (sp : Bool) (w : TWire) : Option KV.Def.Wire :=
-  match w.width with
-  | none => some ⟨String.ofList w.layer, none, w.start.toR, w.rest.map (TItem.toItem sp)⟩
-  | some t => if intOK t then some ⟨String.ofList w.layer, some (natOf t), w.start.toR, w.rest.map (TItem.toItem sp)⟩ else none
+/-- the `DefWire` record handed to the routing model, as `DefTransformer.spwire` / `.wire` build it: the width is the raw
+token (special net) or absent (regular net) — NOT converted. `int(dw.width)` is evaluated by `DefNet.wires` only, and only for
+listed wires (`KV.Def.netWiresR`); `DefNet.vias` never reads it (`KV.Def.netViasR`). -/
+def TWire.toWire (sp : Bool) (w : TWire) : KV.Def.DWire :=
+  ⟨String.ofList w.layer, w.width.map String.ofList, w.start.toR, w.rest.map (TItem.toItem sp)⟩
 
 /-- the wires of ALL wiring statements of a net (`+ COVER | FIXED | ROUTED | NOSHIELD`) in file order: what the repaired
 `spnets_stmt` / `nets_stmt` (D35: `dnet.routed.extend(...)`) collect in `dnet.routed` -/
@@ -994,9 +992,9 @@ def allSome {α : Type} : List (Option α) → Option (List α)
   | none :: _ => none
   | some a :: r => (allSome r).map (a :: ·)
 
-/-- `dnet.routed` as `DefWire` records of the routing model; `none` = some listed width is not an integer token
-(`DefNet.wires` raises `ValueError`) -/
-def TNet.routed (sp : Bool) (n : TNet) : Option (List KV.Def.Wire) := allSome (n.wiresT.map (TWire.toWire sp))
+/-- `dnet.routed` as `DefWire` records of the routing model (total: the transformer converts nothing of a wire but the
+point coordinates and `DO` values, which `DefFile.ok` guards) -/
+def TNet.routed (sp : Bool) (n : TNet) : List KV.Def.DWire := n.wiresT.map (TWire.toWire sp)
 
 /-- the reading of the tree BEFORE repair D35: `setattr(dnet, 'routed', wires)` — the wires of the LAST `+ ROUTED`
 statement only; earlier `+ ROUTED` statements and all `+ FIXED` / `+ COVER` / `+ NOSHIELD` wiring are not listed.
@@ -1005,7 +1003,7 @@ def TNet.wiresTOld (n : TNet) : List TWire :=
   ((n.parts.filterMap fun | .wiring .Routed ws => some ws | _ => none).getLast?).getD []
 
 /-- all nets of the file in file order: (special?, name, wires of all wiring statements) -/
-def DefFile.netsRouted (f : DefFile) : List (Bool × Txt × Option (List KV.Def.Wire)) :=
+def DefFile.netsRouted (f : DefFile) : List (Bool × Txt × List KV.Def.DWire) :=
   f.stmts.flatMap fun
     | .design _ ss => ss.flatMap fun
       | .spnets _ ns => ns.map fun n => (true, n.name, n.routed true)
